@@ -35,7 +35,7 @@ def gen(tier, rng):
         ext = i % 5 == 0
         label, body = rng.choice(c05.bodies(kind, rng, ext))
         st = rng.choice([200, 200, 400, 401, 500, 201, 0, 204, 202, 302, 404, 503, 100 + rng.randrange(500)])
-        base.append((c05.http_line("sync", kind, ext, st, rng.choice(c05.CTS[:6]), body if st else b""), "response/" + label))
+        base.append((c05.http_line("sync", kind, ext, st, rng.choice(c05.CTS[:6]), body if st else b"transport failure"), "response/" + label))
     # the poll loop
     for s in P.scripts(3 if tier == "quick" else 4):
         for term in ("success", "denied", "malformed200"):
